@@ -620,7 +620,109 @@ fn generate(seed: u64, n_cases: usize, tier: &str) {
             sheet_case(&mut rng, &mut out, tier);
         }
     }
+    domain_family(&mut out, seed, n_cases, tier);
     out.flush();
+}
+
+// ---------------------------------------------------------------- input-domain family (`d..` cases)
+//
+// Separately seeded, appended after the random cases (which stay exactly as they were): tear-sheet input
+// classes the random sheet cases never produce. One class per case, cycled by case number:
+//   0 long            80-150 (thorough -300) closed positions, a request every ~40 and at the end
+//   1 signs of cost   negative entry price, negative size, both (exact notionals as in sheet_case)
+//   2 clock           NEGATIVE start time, exits before / at the start (trading period clamped to 1 s),
+//                     a whole history at ONE instant
+//   3 duplicates      runs of the identical closed position (same time, PnL, entry, size)
+fn domain_family(out: &mut Out, seed: u64, n_cases: usize, tier: &str) {
+    let mut rng = Rng::new(seed ^ 0xD0_16_4D_D0);
+    let rng = &mut rng;
+    let thorough = tier == "thorough";
+    let notionals: [(&str, &str); 6] = [("100", "1"), ("50", "2"), ("25", "4"), ("1", "1"), ("10", "0.5"), ("200", "0.5")];
+    let rfs = ["0", "0.0015", "0.001", "-0.0005"];
+    let ivs = ["D", "A252", "A365", "ms:7200000", "ms:604800000"];
+    let count = (n_cases / 15).max(4);
+    for j in 0..count {
+        out.case(format!("d{}", j + 1));
+        let step = *rng.pick(&[1000i64, 60_000, 3_600_000, DAY, 7 * DAY]);
+        match j % 4 {
+            0 => {
+                let t0 = *rng.pick(&[0i64, 1000, 1_700_000_000_000]);
+                out.line(format!("init {t0}"));
+                let mut t = t0;
+                let bias = rng.below(4);
+                let len = rng.range(80, if thorough { 300 } else { 150 });
+                for k in 0..len {
+                    t += match rng.below(20) {
+                        0 => 0,
+                        1 => -step,
+                        _ => step * rng.range(1, 3),
+                    };
+                    let pnl = match bias {
+                        0 => rng.range(1, 30),
+                        1 => -rng.range(1, 30),
+                        2 => rng.range(-30, 30),
+                        _ => if rng.chance(50) { 0 } else { rng.range(-10, 10) },
+                    };
+                    let (entry, qty) = *rng.pick(&notionals);
+                    out.line(format!("pos {t} {pnl} {entry} {qty}"));
+                    if k % 40 == 39 {
+                        out.line(format!("gen {} {}", rng.pick(&rfs), rng.pick(&ivs)));
+                    }
+                }
+                out.line(format!("gen {} D", rng.pick(&rfs)));
+                out.line(format!("gen {} {}", rng.pick(&rfs), rng.pick(&ivs)));
+            }
+            1 => {
+                out.line("init 0");
+                let mut t = 0i64;
+                for _ in 0..rng.range(1, 20) {
+                    t += step * rng.range(1, 3);
+                    let (entry, qty) = *rng.pick(&notionals);
+                    let (se, sq) = *rng.pick(&[("-", ""), ("", "-"), ("-", "-"), ("", "")]);
+                    let pnl = if rng.chance(20) { 0 } else { rng.range(-30, 30) };
+                    out.line(format!("pos {t} {pnl} {se}{entry} {sq}{qty}"));
+                    if rng.chance(12) {
+                        out.line(format!("gen {} {}", rng.pick(&rfs), rng.pick(&ivs)));
+                    }
+                }
+                out.line(format!("gen {} {}", rng.pick(&rfs), rng.pick(&ivs)));
+            }
+            2 => {
+                let t0 = *rng.pick(&[-86_400_000i64, -1, -1_700_000_000_000, 5000]);
+                out.line(format!("init {t0}"));
+                let same_instant = rng.chance(40);
+                let mut t = t0;
+                out.line(format!("gen {} {}", rng.pick(&rfs), rng.pick(&ivs)));
+                for _ in 0..rng.range(1, 15) {
+                    if !same_instant {
+                        t += *rng.pick(&[0i64, -1, -1000, -step, step, 1, 999, 1000, 1001]);
+                    }
+                    let (entry, qty) = *rng.pick(&notionals);
+                    out.line(format!("pos {t} {} {entry} {qty}", rng.range(-20, 20)));
+                    if rng.chance(20) {
+                        out.line(format!("gen {} {}", rng.pick(&rfs), rng.pick(&ivs)));
+                    }
+                }
+                out.line(format!("gen {} {}", rng.pick(&rfs), rng.pick(&ivs)));
+            }
+            _ => {
+                out.line("init 1000");
+                let mut t = 1000i64;
+                for _ in 0..rng.range(1, 6) {
+                    t += step;
+                    let (entry, qty) = *rng.pick(&notionals);
+                    let pnl = rng.range(-20, 20);
+                    for _ in 0..rng.range(2, 6) {
+                        out.line(format!("pos {t} {pnl} {entry} {qty}"));
+                    }
+                    if rng.chance(30) {
+                        out.line(format!("gen {} {}", rng.pick(&rfs), rng.pick(&ivs)));
+                    }
+                }
+                out.line(format!("gen {} {}", rng.pick(&rfs), rng.pick(&ivs)));
+            }
+        }
+    }
 }
 
 fn main() {
